@@ -69,6 +69,8 @@ func init() {
 }
 
 func runC17(c *Ctx, r *Report) {
+	r.Rule("C17/search-window", "prompt searches look at a suffix of the buffer that starts on a line boundary and keeps every line of a multi-line prompt pattern", 4)
+	importObligations(r, func(sub *Report) { checkSearchDepth(c, sub) }, "C01/search-depth", "C17/search-window")
 	platformLevelsSeen = nil
 	defer func() { platformLevelsDone = true }()
 	importFoundation(c, r, "C17", "driver-options")
